@@ -210,7 +210,8 @@ def build(which, release=False):
         cmd.append("--release")
     p = subprocess.run(cmd, cwd=d, env=cargo_env(), stdout=subprocess.PIPE, stderr=subprocess.STDOUT, text=True)
     if p.returncode != 0:
-        raise EncoderError("cargo build (%s) failed:\n%s" % (which, p.stdout[-6000:]))
+        errs = re.findall(r"^error.*?(?=^(?:warning|error)|\Z)", p.stdout, re.S | re.M)
+        raise EncoderError("cargo build (%s) failed:\n%s" % (which, ("".join(errs) or p.stdout)[-6000:]))
     name = "symx" if which == "s" else "symx-replay"
     return os.path.join(tgt, "release" if release else "debug", name)
 
